@@ -172,9 +172,19 @@ fn cw20_listings(n: usize, rng: &mut Rng, out: &mut Out, run: &mut u64) {
     exercise(&w, &l, rng, out, run);
     // n owners grant to one spender
     let mut owners: Vec<String> = vec![];
-    for o in holders.iter() {
+    for (i, o) in holders.iter().enumerate() {
         w.app.execute_contract(o.clone(), tok.clone(), &cw20::Cw20ExecuteMsg::IncreaseAllowance { spender: spender.to_string(), amount: Uint128::new(2), expires: None }, &[]).unwrap();
-        owners.push(o.to_string());
+        // mutual grants: the spender also grants to every owner, and withdraws some of them again
+        w.app.execute_contract(spender.clone(), tok.clone(), &cw20::Cw20ExecuteMsg::IncreaseAllowance { spender: o.to_string(), amount: Uint128::new(2), expires: None }, &[]).unwrap();
+        if i % 4 == 1 {
+            w.app.execute_contract(spender.clone(), tok.clone(), &cw20::Cw20ExecuteMsg::DecreaseAllowance { spender: o.to_string(), amount: Uint128::new(2), expires: None }, &[]).unwrap();
+        }
+        if i % 5 == 2 {
+            // the owner withdraws its grant: it must disappear from the spender's listing
+            w.app.execute_contract(o.clone(), tok.clone(), &cw20::Cw20ExecuteMsg::DecreaseAllowance { spender: spender.to_string(), amount: Uint128::new(5), expires: None }, &[]).unwrap();
+        } else {
+            owners.push(o.to_string());
+        }
     }
     let (t3, s3) = (tok.clone(), spender.clone());
     let l = Listing {
